@@ -323,6 +323,153 @@ pub fn spec(id: &str) -> Option<CheckSpec> {
                 prepare: None,
             })
         }
+        "C08" => {
+            g.blob = BlobMode::Always;
+            g.w.insert = 40;
+            g.w.remove = 12;
+            g.w.batch = 6;
+            g.w.snap_open = 5;
+            g.w.snap_release = 4;
+            g.w.ingest = 2;
+            g.w.reopen = 3;
+            g.w.major = 5;
+            g.w.scan = 6;
+            g.weak_keys_max = 2;
+            g.w.remove_weak = 1;
+            g.max_keys = 24;
+            a.point = true;
+            a.point_deep = true;
+            a.scan_latest = true;
+            a.snapshots = true;
+            a.blob_ptr = true;
+            Some(CheckSpec {
+                id: "C08",
+                level: "exploration",
+                gen: g,
+                audits: a,
+                twin: Twin::StdVsBlob,
+                cases_quick: 1000,
+                cases_thorough: 20_000,
+                ops_quick: 90,
+                ops_thorough: 250,
+                nontrivial: |s| s.get("blob.file_left_version") > 0 && s.get("blob.pointers_checked") > 0,
+                rule: "one history, two trees (Standard and Blob with generated KvSeparationOptions: threshold {1,8,64,1024}, blob file target {1,256,4096,64MiB}, staleness {~0,0.1,0.5,0.9}, age cutoff {0.25,0.5,1}, lz4 on/off), values on both sides of the threshold, overwrite/delete heavy with high watermarks. Every read (get, contains_key, size_of, scans incl. size() guards, len, snapshots, after reopen) must be identical on both trees and equal the model; after every op every Indirection item of every table must decode, name a blob file that is in the version and on disk, and hit a frame (parsed by the harness) with the same key, sizes, valid checksum and the bytes written for that (key, seqno). Non-trivial = a blob file left the version (relocation or dead-file drop) while pointers were being checked. Distinct = hash of the case.",
+                assumptions: ASSUME_COMMON.to_vec(),
+                finale: None,
+                per_op: None,
+                prepare: None,
+            })
+        }
+        "C09" => {
+            g.blob = BlobMode::Always;
+            g.w.insert = 40;
+            g.w.remove = 12;
+            g.w.batch = 6;
+            g.w.ingest = 3;
+            g.w.drop_range = 3;
+            g.w.clear = 1;
+            g.w.reopen = 3;
+            g.w.major = 5;
+            g.verdicts = true;
+            g.max_keys = 24;
+            a.gc_stats = true;
+            Some(CheckSpec {
+                id: "C09",
+                level: "exploration",
+                gen: g,
+                audits: a,
+                twin: Twin::None,
+                cases_quick: 1200,
+                cases_thorough: 20_000,
+                ops_quick: 90,
+                ops_thorough: 250,
+                nontrivial: |s| s.get("blob.partial_garbage") > 0,
+                rule: "blob-tree histories (overwrites, deletes, compaction filter with all verdicts in half of the cases, drop_range, ingestion, relocation, reopen). After every op, for each blob file F of the version: gc_stats[F] == (frames(F) - refs(F)) in count, value bytes and on-disk bytes, where frames are parsed from the file by the harness and refs are the pointers found by scanning every table; every pointer targets an existing frame of a file in the version; stale_blob_bytes() == sum of the recorded on-disk garbage; statistics are compared again after reopen. Entries for files that already left the version may linger (pinned by the existing test blob_tree_nuke_gc_stats) and are not demanded to vanish. Non-trivial = some op left a file with 0 < garbage < total. Distinct = hash of the case.",
+                assumptions: ASSUME_COMMON.to_vec(),
+                finale: None,
+                per_op: None,
+                prepare: Some(|c| {
+                    // filter only in half of the cases
+                    if c.keys.len() % 2 == 0 {
+                        c.verdicts.clear();
+                    }
+                }),
+            })
+        }
+        "C11" => {
+            g.n_cfgs = 3;
+            g.blob = BlobMode::Either;
+            g.w.snap_open = 4;
+            g.w.snap_release = 2;
+            g.w.ingest = 2;
+            g.w.scan = 8;
+            g.w.reopen = 2;
+            g.weak_keys_max = 2;
+            g.w.remove_weak = 1;
+            a.point = true;
+            a.point_deep = true;
+            a.scan_latest = true;
+            a.snapshots = true;
+            a.absent_probes = true;
+            Some(CheckSpec {
+                id: "C11",
+                level: "exploration",
+                gen: g,
+                audits: a,
+                twin: Twin::MultiCfg,
+                cases_quick: 700,
+                cases_thorough: 12_000,
+                ops_quick: 80,
+                ops_thorough: 200,
+                nontrivial: |s| s.get("cfg.differ3") > 0 && (s.get("layout.3levels") > 0 || s.get("layout.multi_l0_runs") > 0),
+                rule: "one history applied to 3 trees with independently generated Configs (block size, restart interval, hash ratio, index/filter partitioning and pinning, filter policy incl. none and expect_point_read_hits, compression, per-level policies) that all share ONE Cache (0 B, 4 KiB or 16 MiB) and ONE DescriptorTable (none, 1, 2, 256); identical histories give coinciding table and blob file ids. Every read (get/contains_key/size_of/internal entry at visible and MAX, absent probes, scans with bounds from both ends, snapshots, len) must equal the model on every tree and the trees must agree with each other. Non-trivial = two of the configs differ in >=3 dimensions and data sat in >=3 levels or >=2 L0 runs. Distinct = hash of the case.",
+                assumptions: ASSUME_COMMON.to_vec(),
+                finale: None,
+                per_op: None,
+                prepare: None,
+            })
+        }
+        "C13" | "C13W" => {
+            g.weak_keys_max = 16;
+            g.w.remove_weak = 14;
+            g.w.insert = 30;
+            g.w.remove = 4;
+            g.w.snap_open = 5;
+            g.w.snap_release = 3;
+            g.w.ingest = 2;
+            g.w.scan = 4;
+            g.w.pulldown = 8;
+            g.w.movedown = 8;
+            g.blob = BlobMode::Either;
+            g.big_values = false;
+            g.multi_gen = false;
+            g.min_keys = 4;
+            g.max_keys = 24;
+            a.point = true;
+            a.scan_latest = true;
+            a.snapshots = true;
+            Some(CheckSpec {
+                id: "C13",
+                level: "exploration",
+                gen: g,
+                audits: a,
+                twin: Twin::WeakStrong,
+                cases_quick: 1600,
+                cases_thorough: 30_000,
+                ops_quick: 90,
+                ops_thorough: 250,
+                nontrivial: |s| s.get("w.remove_weak") > 0 && compaction_happened(s) && rich_layout(s),
+                rule: "histories in which a generated subset of the keys follows the single-delete discipline (insert -> remove_weak, never overwritten or strongly deleted) while the other keys use the normal op set; all maintenance ops and legal watermarks, snapshots, ingestion of weak tombstones. Oracle: the model treats remove_weak as remove (point reads, scans, every live snapshot), and a differential twin runs the same history with remove substituted; both trees must agree on every read. Non-trivial = weak deletes happened, a merging compaction ran and data sat in >=2 sealed memtables / >=2 L0 runs / >=3 levels. Known finding (known_findings.json, signature weak-multigen): keys with >=2 insert/weak-delete generations can resurface an earlier generation; three quarters of the cases restrict discipline keys to one generation, one quarter allows several and tolerates (and counts) only failures carrying that signature. Distinct = hash of the case.",
+                assumptions: ASSUME_COMMON.to_vec(),
+                finale: None,
+                per_op: None,
+                prepare: Some(|c| {
+                    if c.keys.len() % 4 == 0 {
+                        c.multi_gen = true;
+                    }
+                }),
+            })
+        }
         _ => None,
     }
 }
